@@ -226,14 +226,16 @@ def reset_history_free(chk):
     must not depend on what the previous message left in the context.  sa/resetflow.py: on every path through br_gcm_reset,
     br_eax_reset and br_ccm_reset (callees that receive the context are followed in the caller's state) no field that a
     message-processing function may write is read -- loaded, copied from, or handed by pointer to a callee such as GHASH or the
-    CBC-MAC -- before reset has written it.  br_eax_reset_pre_aad / _post_aad are not claimed: their cleanliness depends on
-    `len != 0` in the caller implying the buffer copy in do_cbcmac_chunk, a relation between a caller branch and a callee branch that
-    this analysis does not track."""
+    CBC-MAC -- before reset has written it.  br_eax_reset_pre_aad / _post_aad are covered too: their cleanliness depends on
+    `len != 0` in the caller implying the buffer copy in do_cbcmac_chunk; the analysis carries zero / non-zero facts about parameters
+    from a caller's branch into the callee."""
     from .. import resetflow
     R = 'aead-reset-history-free'
     n = 0
     for src, st, inits, entry, must_mut in (('src/aead/gcm.c', 'br_gcm_context', ('br_gcm_init',), 'br_gcm_reset', ('y', 'jc', 'count_aad', 'count_ctr', 'buf')),
                                             ('src/aead/eax.c', 'br_eax_context', ('br_eax_init',), 'br_eax_reset', ('cbcmac', 'buf', 'ptr', 'ctr', 'nonce')),
+                                            ('src/aead/eax.c', 'br_eax_context', ('br_eax_init',), 'br_eax_reset_pre_aad', ('cbcmac', 'buf', 'ptr', 'ctr', 'nonce')),
+                                            ('src/aead/eax.c', 'br_eax_context', ('br_eax_init',), 'br_eax_reset_post_aad', ('cbcmac', 'buf', 'ptr', 'ctr', 'nonce')),
                                             ('src/aead/ccm.c', 'br_ccm_context', ('br_ccm_init',), 'br_ccm_reset', ('cbcmac', 'buf', 'ptr', 'ctr', 'tagmask'))):
         RF = resetflow.ResetFlow(src, st, inits)
         miss = [f for f in must_mut if f not in RF.mutable]
@@ -251,7 +253,7 @@ def reset_history_free(chk):
                           'with this context gets a different %s than a fresh context would' % (
                               f, 'passed to %s' % (i.get('callee') or 'an indirect call') if i['op'] == 'call' else 'loaded', ' > '.join(path),
                               'counter block / tag' if 'gcm' in src else 'MAC state'), key='%s %s %s' % (R, entry, f))
-    chk.floor('aead resets analysed', n, 3)
+    chk.floor('aead resets analysed', n, 5)
 
 
 def mac_restart_sets_fill(chk):
